@@ -138,3 +138,26 @@ Proof.
   intros Hs Hn T. apply prufer_encode_decode; auto.
   apply is_tree_iff_connected_tree; auto. lia.
 Qed.
+
+(* ------------------------------------------------------------------ codes as Go ints *)
+Lemma code_of_Z (cz : list Z) : (forall x, In x cz -> (0 <= x)%Z) -> map Z.of_nat (map Z.to_nat cz) = cz.
+Proof.
+  intros H. rewrite map_map. rewrite <- (map_id cz) at 2. apply map_ext_in.
+  intros x Hx. apply Z2Nat.id. auto.
+Qed.
+
+Theorem prufer_decode_encode_Z (cz : list Z) :
+  (forall x, In x cz -> (0 <= x < Z.of_nat (length cz) + 2)%Z) ->
+  exists g, prufer_decode cz = Ok (dense_of g) /\ gn g = length cz + 2 /\ simple g /\
+            is_tree g /\ connected_tree g /\ prufer_encode g = Ok cz.
+Proof.
+  intros H. set (c := map Z.to_nat cz).
+  assert (E : map Z.of_nat c = cz) by (apply code_of_Z; intros x Hx; apply H; auto).
+  assert (L : length c = length cz) by (unfold c; apply map_length).
+  assert (V : valid_code c).
+  { intros x Hx. unfold c in Hx. apply in_map_iff in Hx. destruct Hx as (z & <- & Hz).
+    rewrite L. specialize (H z Hz). lia. }
+  destruct (prufer_decode_encode c V) as (D & N & T & P).
+  exists (code_graph c). rewrite E in D, P. rewrite L in N.
+  repeat split; auto; try apply code_graph_simple; apply (prufer_decode_connected_tree c V).
+Qed.
